@@ -29,4 +29,8 @@ CASES = [
          old="        exception = error\n        done = True", new="        done = True\n        exception = error")]),
     dict(expect="fire", desc="mutant: to_future leaves future_ctor_ unassigned when a constructor is given", names="W0-wellformed", edits=[dict(file="reactivex/operators/_tofuture.py",
          old="        future_ctor_ = future_ctor\n", new="        pass\n")]),
+    dict(expect="fire", desc="seed C12-r4/2: from_future cancels only a future that is already done", names="T2-wiring", edits=[dict(file="reactivex/observable/fromfuture.py",
+         old="            if future:\n                future.cancel()", new="            if future.done():\n                future.cancel()")]),
+    dict(expect="fire", desc="mutant: run() ignores its scheduler argument", names="T4-bridge-scheduler", edits=[dict(file="reactivex/run.py",
+         old="source.subscribe(on_next, on_error, on_completed, scheduler=scheduler)", new="source.subscribe(on_next, on_error, on_completed)")]),
 ]
